@@ -1,5 +1,5 @@
 (* C13 driver.
-   argv 1: cases.txt   "E <src> <lvl> <time> <msg> <chain> <attrs> <nwrites> <write>..."  and
+   argv 1: cases.txt   "E|L <src> <lvl> <time> <msg> <chain> <attrs> <nwrites> <write>..." (src = ~ or <hex f.File>,<hex line>)  and
                        "Q <literal> <strconv.Unquote(literal) | ~>"
    argv 2: oracle tables dumped by the harness from the Go toolchain
            ("T space|uprint|sprint lo:hi lo:hi ..." for runes >= 0x80) *)
@@ -61,13 +61,16 @@ let () =
   let cases = ref 0 and specfail = ref 0 and mismatch = ref 0 and drift = ref 0 and qs = ref 0 and qbad = ref 0 and wfbad = ref 0 in
   iter_lines Sys.argv.(1) (fun line ->
     match split_ws line with
-    | "E" :: src :: lvl :: tm :: msg :: chain :: attrs :: nw :: writes ->
+    | ("E" | "L") :: src :: lvl :: tm :: msg :: chain :: attrs :: nw :: writes ->
         incr cases;
         (* exactly nw write fields; anything after them (diagnostics of an earlier verdict line) is ignored *)
         let rec take n l = if n = 0 then [] else (match l with [] -> failwith "write count" | x :: r -> x :: take (n - 1) r) in
         let writes = take (int_of_string nw) writes in
         let r = { time_txt = bytes_of_hex tm; lvl = level_of lvl;
-                  src = (if src = "~" then None else Some (bytes_of_hex src));
+                  src = (if src = "~" then None else
+                           (match String.split_on_char ',' src with
+                            | [f; l] -> Some (bytes_of_hex f, bytes_of_hex l)
+                            | _ -> failwith "src field"));
                   msg = bytes_of_hex msg; attrs = (let i = ref 0 in parse_attrs attrs i) } in
         let v = check_case is_space u_print s_print (parse_chain chain) r (List.map bytes_of_hex writes) in
         if not (spec_ok v) then begin
